@@ -875,7 +875,7 @@ def run(chk):
         "well-formed output: header checksum computed last, data padded to records, sqfs2tar terminates and flushes the "
         "archive before it reports success, unsupported entries are recognised; names are funnelled through "
         "canonicalize_name (decided by C18); truncated input is an error in the archive layer (T1/T2); the PAX mask is "
-        "reset with the header (K9-mask). K11-skipclean: the header writer answers 'unsupported' (which sqfs2tar takes for 'skipped') only on paths on which nothing was written yet. K2-prefix: a path selected by a length-limited comparison with another path (--subdir) is accepted only together with a test of the component boundary.")
+        "reset with the header (K9-mask). K11-skipclean: the header writer answers 'unsupported' (which sqfs2tar takes for 'skipped') only on paths on which nothing was written yet. K2-prefix: a path selected by a length-limited comparison with another path (--subdir) is accepted only together with a test of the component boundary. K13-recpad (sa/residue.py): the bytes record_to_memory takes off the stream and the bytes padd_file adds are the payload rounded up to whole 512-byte records, evaluated over every residue of the size.")
     chk.assumptions = ["field decoding of the dialects, sparse maps, link retargeting and idempotence are not decided"]
     from .c07 import validation_rule, mask_rule
     allp = load_program("all")
@@ -898,6 +898,10 @@ def run(chk):
     chk.floor("K11-skipclean", 1)
     rule_path_prefix(chk, s2t)
     chk.floor("K2-prefix", 1)
+    from ..residue import run_recpad
+    run_recpad(chk, load_program("tar2sqfs"), "K13-recpad", [("record_to_memory", 1, False)])
+    run_recpad(chk, s2t, "K13-recpad", [("padd_file", 1, True)])
+    chk.floor("K13-recpad", 2)
     rule_layer_order(chk, s2t)
     rule_pax_len(chk, s2t)
     from ..strtrunc import run_strtrunc
